@@ -375,7 +375,8 @@ fn ser_named_type(ty: &OwnedDataModelType, value: &Value, out: &mut Vec<u8>) -> 
                 return Err(Error::SchemaMismatch);
             }
         }
-        OwnedDataModelType::Schema => todo!(),
+        // Schema-of-schema values have no serde_json::Value mapping yet
+        OwnedDataModelType::Schema => return Err(Error::ShouldSupportButDont),
     }
     Ok(())
 }
